@@ -198,9 +198,13 @@ fn unary(c: &mut Collector, x: u64, nth_full: bool) {
                 break;
             }
         } else {
-            // unjudged (the trait leaves it open), reported only
-            if it.next().is_some() {
-                c.count("nth-none-left-elements (not judged)");
+            // nth consumes the elements it skips: after a None nothing may be left (as for the
+            // iterator of a slice of the members)
+            let hint = it.size_hint();
+            let rem: Vec<u8> = it.map(|p| p.to_u8()).collect();
+            if !rem.is_empty() || hint != (0, Some(0)) {
+                fail(c, "iter.nth-remainder", x, format!("nth({n}) returned None but the iterator then reports size_hint {hint:?} and yields {rem:?}"));
+                break;
             }
         }
     }
